@@ -40,7 +40,7 @@ func init() {
 			"no goroutine calls BackPropagate or ResetGradContext on a tensor reachable from another goroutine's graph (the statement's proviso)",
 			"timestamps are used for the overlap statistics in the evidence only, never for the verdict; no shared atomic is touched between API calls (it would order the goroutines and hide races)",
 		},
-		FloorQuick: 30, FloorThor: 300,
+		FloorQuick: 100, FloorThor: 2000,
 		Race:   true,
 		Run:    runC20,
 		Finish: finishC20,
@@ -403,7 +403,7 @@ func runC20(c *fw.Ctx) {
 	c20Canary()
 	Gs := []int{2, 4, 8, 16, 32}
 	Ps := []int{1, 2, 4, 16}
-	runs := c.Pick(60, 1200)
+	runs := c.Pick(160, 4000)
 	for i := 0; i < runs; i++ {
 		i := i
 		c.Case(func(k *fw.K) {
